@@ -18,31 +18,43 @@
 (* `next` sees in the registers it consults.  Leaky = registers that are   *)
 (* NOT reset at statement start: {} is the intended analyser; the shipped  *)
 (* one leaks lastValue / exprFlag into a line that starts with `[`         *)
-(* (known finding Dev_BracketLineContinuesPreviousStatement).              *)
+(* (known finding Dev_BracketLineContinuesPreviousStatement), the          *)
+(* operator of a statement-level `!x` into the next binary expression      *)
+(* (Dev_NotCallLeaksLastCall) and the condition of a `while` modifier into *)
+(* the narrowing of the next `if` (Dev_WhileModifierConditionLeaks).       *)
 (***************************************************************************)
 EXTENDS Integers, Sequences, FiniteSets, TLC
 
 CONSTANTS Leaky
 
-Registers == {"lastValue", "lastResolved", "exprFlag"}
+Registers == {"lastValue", "lastResolved", "exprFlag", "lastCall", "modifierCond"}
 
 \* how a fragment / previous statement can end, and what it leaves in the registers
 EndKinds == {"assign-lit", "assign-call", "call-noblock", "call-block-params", "times-block", "if-end", "array-lit",
-             "hash-lit", "string-lit", "op-assign", "print-call", "method-chain", "none"}
+             "hash-lit", "string-lit", "op-assign", "print-call", "method-chain", "failing-op-call", "not-call",
+             "while-modifier", "none"}
 Leaves(k) ==
     [r \in Registers |->
        CASE k = "none" -> "clean"
          [] r = "lastValue" -> k
          [] r = "lastResolved" -> IF k \in {"assign-call", "call-noblock", "call-block-params", "times-block", "op-assign",
-                                            "print-call", "method-chain"} THEN k ELSE "clean"
-         [] OTHER -> IF k \in {"assign-lit", "assign-call", "op-assign"} THEN k ELSE "clean"]
+                                            "print-call", "method-chain", "not-call"} THEN k ELSE "clean"
+         \* the operator of the last call (it decides where a following binary expression is cut): restored by a
+         \* deferred statement after every call - also one that ends with an error
+         [] r = "lastCall" -> IF k \in {"failing-op-call", "not-call"} THEN k ELSE "clean"
+         \* the narrowing a `stmt while cond` modifier set up for its condition
+         [] r = "modifierCond" -> IF k = "while-modifier" THEN k ELSE "clean"
+         [] OTHER -> IF k \in {"assign-lit", "assign-call", "op-assign", "while-modifier"} THEN k ELSE "clean"]
 
 \* how the host statement behind the seam starts, and which registers it consults before writing them
 NextKinds == {"probe-ident", "block-unknown-method", "block-union-receiver", "block-strategy-method", "bracket-line",
-              "paren-line", "unary-minus-line", "string-line", "symbol-line", "const-line", "if-line", "def-line"}
+              "paren-line", "unary-minus-line", "string-line", "symbol-line", "const-line", "if-line", "def-line",
+              "ternary-op-line", "arith-line"}
 Consults(k) ==
     CASE k \in {"block-unknown-method", "block-union-receiver", "block-strategy-method"} -> {"lastResolved"}
       [] k \in {"bracket-line", "paren-line", "unary-minus-line"} -> {"lastValue", "exprFlag"}
+      [] k \in {"ternary-op-line", "arith-line"} -> {"lastCall"}
+      [] k = "if-line" -> {"modifierCond"}
       [] OTHER -> {}
 
 VARIABLES prev, fragEnd, next, withFragment, regs, seen, pc
